@@ -10,6 +10,7 @@ EXTENDS Naturals, Sequences, FiniteSets, TLC, Json
 
 CONSTANTS Pipes, MaxMsgs, MaxOps, MaxNow, Ticks,
           Resend,        \* finite resend time used (ms); Inf = disabled
+          Resend2,       \* a second finite resend time (contexts with different resend times share one retry queue)
           Tick,          \* NNG_OPT_REQ_RESENDTICK set by the prelude
           AllowRetune,   \* allow changing the resend time while a request is outstanding
           FreeByClone    \* TRUE: the retained copy is released iff it was cloned (repaired); FALSE: iff retry > 0 now (defect)
@@ -242,7 +243,7 @@ Advance(d) ==
 
 Next == \/ (\E c \in Ctxs, md \in {"nb", "aio"} : Send(c, md) \/ Recv(c, md))
         \/ (\E k \in 1..MaxOps : Cancel(k)) \/ CtxOpen
-        \/ (\E c \in Ctxs, v \in {Resend, Inf} : SetResend(c, v))
+        \/ (\E c \in Ctxs, v \in {Resend, Resend2, Inf} : SetResend(c, v))
         \/ (\E p \in Pipes : Connect(p) \/ Take(p) \/ Lost(p, "close") \/ Lost(p, "short")
                              \/ \E c \in Ctxs, kd \in {"cur", "old", "unknown", "nobit", "unsent"} : Reply(p, kd, c))
         \/ (\E d \in Ticks : Advance(d))
@@ -272,7 +273,7 @@ NoOrphan == \A c \in Ctxs : Outstanding(c) =>
 \* a request written with resending disabled is on the wire at most once (NoResendWhenDisabled above), and a request
 \* waiting for a pipe is written as soon as one is idle (QueueDrained above)
 \* the deadline of a scheduled resend is never further away than the resend time
-ResendBounded == \A c \in Ctxs : (Outstanding(c) /\ held[c] /\ c \in SeqSet(retryq)) => retryAt[c] <= now + Resend
+ResendBounded == \A c \in Ctxs : (Outstanding(c) /\ held[c] /\ c \in SeqSet(retryq)) => retryAt[c] <= now + (IF Resend2 > Resend THEN Resend2 ELSE Resend)
 
 \* Liveness within the bounds of the model: the last pipe, once connected, stays; repliers read what is written and answer
 \* the requests they know; time passes.  Then a receive on a request with resending enabled completes, unless the model's
